@@ -214,7 +214,7 @@ func C12Plan(tier string) *harness.Plan {
 	t := Tier{PN: 3, SK: 1, LASCII: 3, LUTF8: 2, LRaw: 2, EmbedW: 1, EmbedPN: 2, TokL: 2, TokN: 5, SeedEmbW: 1, SeedJ: []int{0, 33}, SeedEmbFirst: 200, Pads: []byte{' '}, Budget: 150 * time.Second}
 	if tier == "thorough" {
 		k = 2
-		t = Tier{PN: 3, SK: 1, LASCII: 4, LUTF8: 3, LRaw: 3, EmbedW: 1, EmbedPN: 3, TokL: 3, TokN: 6, SeedEmbW: 1, SeedJ: []int{0, 33}, Budget: 40 * time.Minute}
+		t.Budget = 25 * time.Minute // thorough: the same programs and inputs under every configuration with at most 2 deviations
 	}
 	sp := NewSpace(t)
 	cfgs := C12Configs(k)
